@@ -7,12 +7,31 @@ open Go.Proto Model.StateDB Driver
 
 abbrev Content := List (Option (Nat × Nat × Int × List (Option Int) × List (Option Bytes) × Bytes))
 
+abbrev TrieC := Addr → Option Account
+
+/-- what the harness keeps per underlying database: block-store height, the trie content committed at each height, the
+height the kv undo log belongs to (`kvh`, mode 3), the current content of the flat database (modes 2, 3) -/
+structure DbInfo where
+  height : Nat := 0
+  kvh : Nat := 0
+  tries : List (Nat × TrieC) := []
+  cur : TrieC := fun _ => none
+
 structure St where
   heap : Ref → TokMap := fun _ => emptyToks
   nextRef : Nat := 0
   states : List (Nat × State) := []      -- live handles, ascending
   classes : List Content := []
   mode : Nat := 0
+  commits : List TrieC := []             -- trie content of every successful commit op, in order
+  hdb : List (Nat × Nat) := []           -- handle -> database id
+  dbs : List (Nat × DbInfo) := []
+  nextDb : Nat := 0
+
+def dbOf (s : St) (h : Nat) : Nat := ((s.hdb.find? (·.1 == h)).map (·.2)).getD 0
+def dbInfo (s : St) (d : Nat) : DbInfo := ((s.dbs.find? (·.1 == d)).map (·.2)).getD {}
+def setDb (s : St) (d : Nat) (i : DbInfo) : St := { s with dbs := (d, i) :: s.dbs.filter (·.1 != d) }
+def trieAt (i : DbInfo) (k : Nat) : TrieC := ((i.tries.find? (·.1 == k)).map (·.2)).getD (fun _ => none)
 
 /-- the model is instantiated from what the extractor sees in the tree NOW (T2): a repaired tree is compared with the repaired model -/
 def cfg : Cfg := { cloneTokens := Gen.C09Facts.deepCopyClonesTokens, journalAbsent := !Gen.C09Facts.zeroInsertBeforeJournal }
@@ -43,12 +62,18 @@ def showAcct (heap : Ref → TokMap) (s : State) (a : Addr) : String :=
     let stor := ":".intercalate (keyU.map (fun k => hexEncode (getState o k)))
     let f := (if o.suicided then "S" else "") ++ (if o.isEmpty then "E" else "")
     let f := if f.isEmpty then "-" else f
-    s!"{o.nonce},{o.credits},{o.balance},{tbs},{tb},{hexEncode o.code},K,{o.code.length},{stor},{f}"
+    let cst := ":".intercalate (keyU.map (fun k => hexEncode (committed o k)))
+    let x := if o.code.isEmpty then "-" else "I"
+    s!"{o.nonce},{o.credits},{o.balance},{tbs},{tb},{hexEncode o.code},K,{o.code.length},{stor},{f},{cst},{x}"
 
 def showState (heap : Ref → TokMap) (h : Nat) (s : State) : String :=
   let logs := "|".intercalate ([0, 1, 2].map (fun x => ",".intercalate ((s.logs x).map showLog)))
   let accts := "/".intercalate (addrU.map (showAcct heap s))
-  s!"h{h}[r={s.refund};L={logs};{accts}]"
+  let n := ([0, 1, 2].map (fun x => (s.logs x).length)).foldl (· + ·) 0
+  let pre := "|".intercalate ([0, 1, 2].map (fun p => match s.preimages p with
+    | none => "."
+    | some v => hexEncode v))
+  s!"h{h}[r={s.refund};L={logs};n={n};P={pre};{accts}]"
 
 def dump (s : St) : String := " ".intercalate (s.states.map (fun (h, x) => showState s.heap h x))
 
@@ -79,6 +104,8 @@ def parseMut (toks : List String) : Option Op := do
   | "addlog" => some (.addLog (← argNat? toks "d"))
   | "addrefund" => some (.addRefund (← argNat? toks "g"))
   | "prepare" => some (.prepare (← argNat? toks "x") (← argNat? toks "i"))
+  | "setcredits" => some (.setCredits (← argNat? toks "a") (← argNat? toks "n"))
+  | "addpreimage" => some (.addPreimage (← argNat? toks "p") (← argHex? toks "d"))
   | _ => none
 
 def balOf (s : St) (x : State) (a : Addr) (t : Tok) : Int :=
@@ -128,7 +155,7 @@ def stepOn (s : St) (h : Nat) (x : State) (toks : List String) : St × String :=
       else
         let (c', y) := copy cfg c
         let s1 := putCtx s h c'
-        withDump { s1 with states := insertH s1.states n y } "ok"
+        withDump { s1 with states := insertH s1.states n y, hdb := (n, dbOf s1 h) :: s1.hdb } "ok"
     | none => (s, "bad-op")
   | some "root" =>
     match argNat? toks "del" with
@@ -142,8 +169,47 @@ def stepOn (s : St) (h : Nat) (x : State) (toks : List String) : St × String :=
     | some d =>
       let c' := commit (d == 1) c
       let (s1, cl) := classOf (putCtx s h c') c'.st
-      withDump s1 cl
+      let di := dbInfo s1 (dbOf s1 h)
+      let di' : DbInfo := { height := di.height + 1, kvh := if s1.mode == 3 then di.height + 1 else di.kvh,
+                            tries := (di.height + 1, c'.st.trie) :: di.tries.filter (·.1 != di.height + 1), cur := c'.st.trie }
+      withDump { setDb s1 (dbOf s1 h) di' with commits := s1.commits ++ [c'.st.trie] } cl
     | none => (s, "bad-op")
+  | some "reset" =>
+    match arg? toks "to" with
+    | none => (s, "bad-op")
+    | some to =>
+      let di := dbInfo s (dbOf s h)
+      let unknown := to != "bad" && to != "-" && (match to.toNat? with
+        | none => true
+        | some j => j ≥ s.commits.length)
+      if unknown then (s, "bad-op")
+      else if s.mode ≥ 2 then
+        -- flat kv: OpenTrie ignores the root, the state reads the database as it is
+        withDump (putCtx s h (ctxOf s (resetTo di.cur x))) "ok"
+      else if to == "bad" then withDump s "err"
+      else if to == "-" then withDump (putCtx s h (ctxOf s (resetTo (fun _ => none) x))) "ok"
+      else
+        match to.toNat? with
+        | none => (s, "bad-op")
+        | some j =>
+          match s.commits[j]? with
+          | none => (s, "bad-op")
+          | some t => withDump (putCtx s h (ctxOf s (resetTo t x))) "ok"
+  | some "reopen" =>
+    let di := dbInfo s (dbOf s h)
+    let t := if s.mode ≥ 2 then di.cur else trieAt di di.height
+    withDump (putCtx s h (ctxOf s (openAt t))) "ok"
+  | some "rollback" =>
+    let d := dbOf s h
+    let di := dbInfo s d
+    -- CanRollBackOneBlock: height > 0 and (the undo log belongs to this height, or there is no undo-log file: every mode but 3)
+    let can := decide (di.height > 0) && (if s.mode == 3 then di.kvh == di.height else true)
+    let di1 : DbInfo := if can then { di with height := di.height - 1 } else di
+    -- reopening at `height`: mode 3 replays the undo log when it belongs to height+1
+    let di2 : DbInfo := if s.mode == 3 && di1.kvh == di1.height + 1 then { di1 with cur := trieAt di1 di1.height } else di1
+    let t := if s.mode ≥ 2 then di2.cur else trieAt di2 di2.height
+    let dbs := if s.mode == 3 then "same" else "na"
+    withDump (putCtx (setDb s d di2) h (ctxOf s (openAt t))) s!"rolled={can} db={dbs}"
   | _ =>
     match parseMut toks with
     | some op => withDump (putCtx s h (applyOp cfg c op)) "ok"
@@ -153,10 +219,10 @@ def step (s : St) (toks : List String) : St × String :=
   match toks with
   | "case" :: _ =>
     let m := (argNat? toks "mode").getD 0
-    ({ mode := m, states := [(0, State.empty)] }, "ok")
+    ({ mode := m, states := [(0, State.empty)], hdb := [(0, 0)], nextDb := 1 }, "ok")
   | "new" :: _ =>
     match argNat? toks "h" with
-    | some h => if (getH s h).isSome then (s, "bad-op") else withDump { s with states := insertH s.states h State.empty } "ok"
+    | some h => if (getH s h).isSome then (s, "bad-op") else withDump { s with states := insertH s.states h State.empty, hdb := (h, s.nextDb) :: s.hdb, nextDb := s.nextDb + 1 } "ok"
     | none => (s, "bad-op")
   | _ =>
     match argNat? toks "h" with
